@@ -144,7 +144,7 @@ AASM_IMPORTS = ("From Coq Require Import String.\nFrom Aelys Require Import Mode
                 "Definition text_eqb (a b : string * option (list N)) : bool := String.eqb (fst a) (fst b).")
 
 
-def aasm_instr_tie(ctx, prof):
+def aasm_instr_tie(ctx, prof, model=True):
     """every opcode byte 0..255 x fixed + random operand bytes: the real disassembly line must be the model's
     rendering and the real reassembly must be the model's (jumps: text only, labels are resolved per function)"""
     ok, paths, log = vlib.harness_build(["hx_avbc"], profile=prof)
@@ -176,11 +176,17 @@ def aasm_instr_tie(ctx, prof):
             continue
         if txt.startswith(".word"):
             txt = ".word"
+        # an oracle that needs no model: the text of an instruction must assemble to the same opcode
+        if re_ != "ERR" and txt != ".word" and (int(re_.split(";")[0]) >> 24) != (int(w) >> 24):
+            ctx.violation("aasm:opcode-changes-in-round-trip", f"`{txt}` (opcode {int(w) >> 24}) assembles to opcode {int(re_.split(';')[0]) >> 24}",
+                          {"word": int(w), "text": txt, "reassembled": re_})
         obs_re = "(@None (list N))" if re_ == "ERR" else "(Some [" + "; ".join(re_.split(";")) + "])"
         q = (w, f"(\"{txt}\"%string, {obs_re})")
         (text_only if txt.startswith("Jump") else full).append(q)
     ctx.cov["aasm_instruction_cases"] = {"words": len(full) + len(text_only), "jumps_text_only": len(text_only),
                                          "not_opcodes": sum(1 for _, o in full if ".word" in o)}
+    if not model:
+        return            # the models do not build (reported as broken): only the model-free oracle above ran
     for cases, eqb, what in ((full, "aobs_eqb", "text+reassembly"), (text_only, "text_eqb", "text")):
         fails, err = vlib.coq_eval_cases("c08a" + prof, AASM_IMPORTS, "(fun w => (render_line w, reassemble w))", eqb, cases, shard=400, timeout=600)
         if err:
@@ -444,6 +450,10 @@ def project_layouts():
     add("entry-dot-slash", {"main.aelys": flat["proj/main.aelys"], "helpers.aelys": inc}, "./main.aelys")
     add("entry-dotdot", dict(flat, **{"other/.keep": ""}), "../proj/main.aelys", "other")
     add("entry-absolute", flat, "{abs}/proj/main.aelys")
+    add("entry-through-symlinked-directory", dict(flat, **{"lnk": "->proj"}), "lnk/main.aelys")
+    add("entry-absolute-through-symlink", dict(flat, **{"lnk": "->proj"}), "{abs}/lnk/main.aelys")
+    add("entry-in-deeper-subdirectory", {"a/b/main.aelys": flat["proj/main.aelys"], "a/b/helpers.aelys": inc}, "a/b/main.aelys")
+    add("entry-subdirectory-directory-module", {"proj/main.aelys": io + "needs utils\nio.println(utils.inc(41))\n", "proj/utils/mod.aelys": inc}, "proj/main.aelys")
     add("entry-in-subdirectory-nested-import", {"proj/main.aelys": io + "needs utils.helpers\nio.println(helpers.inc(41))\n", "proj/utils/helpers.aelys": inc}, "proj/main.aelys")
     # names the VM registers on its own: no `needs` at all
     add("builtin-print", {"main.aelys": "fn sq(x) { return x * x }\nprint(sq(7))\n"})
@@ -490,6 +500,9 @@ def multi_file_cases(ctx, wd):
         shutil.rmtree(dst, ignore_errors=True)
         for rel, text in files.items():
             os.makedirs(os.path.dirname(os.path.join(dst, rel)) or dst, exist_ok=True)
+            if text.startswith("->"):
+                os.symlink(text[2:], os.path.join(dst, rel))
+                continue
             open(os.path.join(dst, rel), "w", encoding="utf-8").write(text)
         entry = entry.replace("{abs}", dst)
         stem = entry[:-len(".aelys")]
@@ -498,6 +511,7 @@ def multi_file_cases(ctx, wd):
         def run(args):
             q = subprocess.run([cli] + args, stdout=subprocess.PIPE, stderr=subprocess.PIPE, timeout=60, cwd=os.path.join(dst, cwd))
             return q.returncode, q.stdout.decode("utf-8", "replace"), q.stderr.decode("utf-8", "replace")
+        prog = prog or next((t for r_, t in files.items() if r_.endswith("main.aelys")), "")
         for opt in (0, 2):
             base = run(["run", f"-O{opt}", entry])
             for route, make, saved in (("avbc", ["compile", f"-O{opt}", entry, "-o", f"{stem}{opt}.avbc"], f"{stem}{opt}.avbc"),
@@ -519,7 +533,7 @@ def multi_file_cases(ctx, wd):
                     elif (u := re.search(r"undefined variable '(\w+)", r[2])) and re.search(r"needs\s+[\w\s,]*\b" + re.escape(u.group(1)) + r"\b[\w\s,]*\sfrom\s+(?!std\.)", prog):
                         sig = f"{route}:symbol-import-not-resolvable"     # `needs inc from helpers`: the saved global is just `inc`
                     else:
-                        sig = f"cli:{route}:multi-file-differs:{name}"
+                        sig = f"cli:{route}:multi-file-differs:" + ("entry-path-form" if name.startswith("entry-") else name)
                 elif base[0] != 0 and opt == 0 and report_lines(r[2], os.path.basename(stem)) != report_lines(base[2], os.path.basename(stem)):
                     # -O0 keeps the line table in .avbc (higher levels strip it on purpose)
                     sig = f"{route}:error-position-differs"
@@ -563,6 +577,8 @@ def run(ctx):
             ctx.log(f"codec tie ({prof})")
             codec_tie(ctx, prof, pfile, wd)
             aasm_instr_tie(ctx, prof)
+        else:
+            aasm_instr_tie(ctx, prof, model=False)
         ctx.log(f"observational tie ({prof}), {len(progs)} programs")
         c = observational(ctx, prof, pfile, progs, wd, len(corpus))
         if prof == "dev":
